@@ -53,7 +53,7 @@ def parse_int(value, nullable=True):  # type: (Any, bool) -> Optional[int]
 
     try:
         return int(value)
-    except (TypeError, ValueError):
+    except (TypeError, ValueError, OverflowError):
         raise ValueError('The value "{}" cannot be parsed as integer.'.format(value))
 
 
@@ -63,7 +63,7 @@ def parse_float(value, nullable=True):  # type: (Any, bool) -> Optional[float]
 
     try:
         return float(value)
-    except (TypeError, ValueError):
+    except (TypeError, ValueError, OverflowError):
         raise ValueError('The value "{}" cannot be parsed as float.'.format(value))
 
 
